@@ -13,3 +13,7 @@ func TestReplay(t *testing.T) { pbt.Replay(t) }
 var Prop = pbt.Register(j2tcheck.Prop("TestJSONToThrift"))
 
 func TestJSONToThrift(t *testing.T) { pbt.Run(t, Prop) }
+
+var Deep = pbt.Register(j2tcheck.DeepProp("TestDeepNesting"))
+
+func TestDeepNesting(t *testing.T) { pbt.Run(t, Deep) }
